@@ -17,8 +17,8 @@ THEOREMS = [
 ]
 CXX_TARGETS = ["hgv_map"]
 RULE = ("key/element histories replayed into a REAL graph replay(TSD<int,TS<int>>) [+ second multiplexed TSD | broadcast TS] "
-        "-> map_(f) -> record, f from: stateless +1, running sum, value+1000*key, self-scheduling echo (k=1,2,3 steps, tagged "
-        "NodeScheduler event), emits-only-even (child output sometimes invalid), throws-on-negative with "
+        "-> map_(f) -> record, f from: stateless +1, running sum, value+1000*key, self-scheduling echo (k=1,2,3 steps or a "
+        "value-dependent delay that can move a pending wake-up earlier; tagged NodeScheduler event), emits-only-even (child output sometimes invalid), throws-on-negative with "
         "exception_time_series, broadcast add, two multiplexed dictionaries with differing key sets, nested map_(acc); with "
         "and without a key argument. A case is non-trivial when it has >= 3 keys live at once, a removal, and a re-add of a "
         "removed key or an update of a live key; distinct by sha1 of the case body")
@@ -47,10 +47,17 @@ LEVEL_TEXT = ("Kernel-checked for ARBITRARY child behaviours (Mealy machines wit
               "real runtime and each implementation trace is judged by a plain-Python per-key reference.")
 LEVEL_NOTE = ("Partial: source re-pointing, pause/resume and the TSD output's own tick bookkeeping are outside the model (the "
               "latter is observed through the recorded deltas). What happens INSIDE a child graph after a captured failure is "
-              "the child's behaviour (finding C10-A is reported by the monitor, not by a broken proof). Memory safety under "
-              "slot reuse is not covered.")
+              "the child's behaviour: the stream 'map-failing-child-wakeup' runs a thrower ranked before a self-scheduling node in "
+              "one child; its reference demands that a wake-up pending in the failing child survives the captured failure "
+              "(it does not when the self-scheduling node is due in the failing cycle: known finding F6, reported as [C10-A]); "
+              "C10_FINDINGS=lenient makes the reference drop it the way try_except around the same function does. "
+              "Memory safety under slot reuse is not covered.")
 
-UNARY = ["inc", "acc", "addkey", "echo1", "echo2", "echo3", "even", "neg"]
+UNARY = ["inc", "acc", "addkey", "echo1", "echo2", "echo3", "echov", "even", "neg"]
+# default (strict): the reference keeps a wake-up that is pending in a child across a captured failure of that
+# child (known finding F6, tagged [C10-A]); C10_FINDINGS=lenient: the reference does what try_except around the
+# same function does (drops it)
+STRICT = os.environ.get("C10_FINDINGS", "strict") == "strict"
 KEY_POOL = list(range(1, 41))
 
 
@@ -289,7 +296,7 @@ def _nest_cycles(rng, tier):
 
 
 def gen_case(rng, idx, tier, fn=None):
-    fn = fn or rng.choice(["inc", "acc", "acc", "addkey", "echo1", "echo2", "echo3", "even", "neg", "neg", "addb", "pair", "pair", "nest"])
+    fn = fn or rng.choice(["inc", "acc", "acc", "addkey", "echo1", "echo2", "echo3", "echov", "echov", "even", "neg", "neg", "addb", "pair", "pair", "nest"])
     key = 1 if fn == "addkey" else int(rng.random() < 0.65)
     err = 0
     if fn in ("neg", "negecho"):
@@ -348,7 +355,7 @@ def streams(rng, tier, seed):
             corpus.append(Case([l.rstrip("\n") for l in open(os.path.join(cdir, f)) if l.strip()]))
     out = [Stream("map", [os.path.join(BUILD, "hgv_map")], model_cmd("C10"), corpus + cases, timeout=3000)]
     if os.environ.get("C10_FINDINGS", "on") != "off":
-        nf = 40 if tier == "quick" else 400
+        nf = 60 if tier == "quick" else 600
         out.append(Stream("map-failing-child-wakeup", [os.path.join(BUILD, "hgv_map")], model_cmd("C10"),
                           [gen_case(rng, 500000 + i, tier, "negecho") for i in range(nf)], timeout=3000))
     return out
@@ -367,7 +374,7 @@ class _Ref:
         self.g = None
         self.e = None
         self.inner = {}
-        self.k = int(fn[4:]) if fn.startswith("echo") else 2
+        self.k = int(fn[4:]) if fn.startswith("echo") and fn != "echov" else 2
 
     def on_cycle(self, cyc, i):
         """i: dict(a, aTick, b, bTick, z, zTick, nsets, ndels).  Returns (out, err)."""
@@ -385,7 +392,7 @@ class _Ref:
         if fn.startswith("echo"):
             if at and a is not None:
                 self.echo = a + 100
-                self.wake = cyc + self.k
+                self.wake = cyc + (1 + a % 3 if fn == "echov" else self.k)
                 return a, None
             if self.wake == cyc:
                 self.wake = None
@@ -401,9 +408,12 @@ class _Ref:
                 return self.total, None
             return None, None
         if fn == "negecho":
-            # the guard fails: nothing of this cycle is visible, but an echo that is already pending stays pending
+            # the guard fails: nothing of this cycle is visible.  STRICT: an echo that is already pending stays
+            # pending; default: it is dropped, as it is when the same function runs alone under try_except
             if at and a is not None:
                 if a < 0:
+                    if not STRICT:
+                        self.wake = None
                     return None, a
                 self.g = a
                 self.e = a
@@ -537,7 +547,7 @@ def _spec(case, out):
             if dead:
                 continue
             if o.startswith("err:") or o.startswith("<") or o == "bad-op":
-                bad.append("driver reported %s for %r" % (o, ln))
+                bad.append("[C10-driver] the run failed or stopped: driver reported %s for %r" % (o, ln))
                 continue
             f = _fields(o)
             stops, starts, us, _ = _parse_events(f.get("ev", "-"))
@@ -677,7 +687,7 @@ def _spec(case, out):
                 bad.append("cycle %d: a child failed without error capture, the run must end with the exception; got %r" % (cyc - 1, o))
             continue
         if o.startswith("err:") or o.startswith("<") or o in ("bad-op", "idle"):
-            bad.append("cycle %d: driver reported %s" % (cyc - 1, o))
+            bad.append("[C10-driver] the run failed or stopped: cycle %d driver reported %s" % (cyc - 1, o))
             continue
         f = _fields(o)
         tag = "[C10-A]" if fn == "negecho" else ""
